@@ -23,8 +23,11 @@ import (
 // c15norm: a copy in which absent and empty collections are the same and the
 // parent pointers are dropped (they are checked separately).
 func c15normLoc(l poly.Location) poly.Location {
+	if l.SubLocations == nil {
+		return l
+	}
 	if len(l.SubLocations) == 0 {
-		l.SubLocations = nil
+		l.SubLocations = []poly.Location{} // empty but present stays empty but present (the domain has both)
 		return l
 	}
 	subs := make([]poly.Location, len(l.SubLocations))
@@ -37,18 +40,11 @@ func c15normLoc(l poly.Location) poly.Location {
 
 func c15norm(s poly.Sequence) poly.Sequence {
 	c := s
-	if len(c.Meta.Other) == 0 {
-		c.Meta.Other = nil
-	}
-	if len(c.Meta.References) == 0 {
-		c.Meta.References = nil
-	}
+	// empty and absent collections are different values of the domain and are compared as such; only the feature list
+	// itself is rebuilt by Parse (always present afterwards), so nil and empty feature lists are identified
 	c.Features = nil
 	for _, f := range s.Features {
 		f.ParentSequence = nil
-		if len(f.Attributes) == 0 {
-			f.Attributes = nil
-		}
 		f.SequenceLocation = c15normLoc(f.SequenceLocation)
 		c.Features = append(c.Features, f)
 	}
